@@ -27,7 +27,7 @@ func init() {
 		busy := func() int {
 			return d.rec.Count(func(e Ev) bool {
 				switch e["ev"] {
-				case "BRecvPing", "BSendPong", "BPongQueued", "BSendPing", "BRecvPong", "Stall":
+				case "BRecvPing", "BSendPong", "BPongQueued", "BStrayPong", "BSendPing", "BRecvPong", "Stall":
 					return false
 				}
 				return true
